@@ -271,7 +271,10 @@ def run_case(case):
     # kept temperature must stay bit-identical even where the thermo state is "cleaned" (T = 0 in one cell)
     cfgk = ('HRR+kept', 'HRR', {'mech': 'm.yaml', 'pressure': 1.0}, 'temp', ['HeatRelease'])
 
-    def kpath(ctx):
+    # ... and a user recipe with a solution array that reads the temperature from the box array must see the stored value there
+    cfgb = ('user-boxsol+kept', os.path.join(RECIPES, 'r_boxsol.py'), {'mech': 'm.yaml', 'pressure': 1.0}, 'temp density', ['T_times_rho'])
+
+    def kpath(ctx, cfgk=cfgk):
         lv = ref.nlev - 1
         free = (lv, 0, tuple(0 for _ in range(3)))
         label, recipe, kw, kept, newnames = cfgk
@@ -280,7 +283,7 @@ def run_case(case):
         ref.write_symfs(fs, '/work/plt')
         obl = Obl(ctx)
         assume_physical(ctx, ref, free)
-        what = 'Chef(recipe=HRR, kept_fields="temp") with one cell of arbitrary temperature'
+        what = 'Chef(recipe=%s, kept_fields=%r) with one cell of arbitrary temperature' % (os.path.basename(recipe), kept)
         with patch.Patched(mods, fs, stubs={'amr_kitchen.chef.chef': {'ct': ctstub}}), common.quiet():
             try:
                 chefmod.Chef(plotfile='plt', recipe=recipe, outfile='out', serial=True, kept_fields=kept, **kw).cook()
@@ -300,15 +303,24 @@ def run_case(case):
             want = ref.data[lv][0][..., ref.fields.index('temp')]
             for g, w in zip(got.reshape(-1), want.reshape(-1)):
                 if not obl.same_word(g, w, '%s: kept temp' % what):
-                    break
+                    return obl
+            if label.startswith('user-boxsol'):
+                if P.fields != ['temp', 'density', 'T_times_rho']:
+                    obl.fail('%s: fields %s' % (what, P.fields))
+                    return obl
+                rho = ref.data[lv][0][..., ref.fields.index('density')]
+                for g, t_, r_ in zip(P.data[lv][0][..., 2].reshape(-1), want.reshape(-1), rho.reshape(-1)):
+                    if not obl.equal(g, t_ * r_, '%s: new field = stored temperature x stored density' % what):
+                        return obl
         return obl
-    results, exhaustive, stats = core.explore(kpath, max_paths=16)
-    res.add_explore(results, exhaustive, stats)
-    for ctx, obl in results:
-        res.add_obl(obl)
-        if obl.failed and not ctx.flags:
-            sig = 'C11/kept-field-cleaned'
-            viol.setdefault(sig, {'signature': sig, 'what': obl.failed[0][0][:400], 'cfg': cfgk, 'serial': True, 'model': ctx.model(), 'free': True})
+    for cfgf in (cfgk, cfgb):
+        results, exhaustive, stats = core.explore(lambda ctx, cfgf=cfgf: kpath(ctx, cfgf), max_paths=16)
+        res.add_explore(results, exhaustive, stats)
+        for ctx, obl in results:
+            res.add_obl(obl)
+            if obl.failed and not ctx.flags:
+                sig = 'C11/kept-field-cleaned' if cfgf is cfgk else 'C11/recipe-input-cleaned'
+                viol.setdefault(sig, {'signature': sig, 'what': obl.failed[0][0][:400], 'cfg': cfgf, 'serial': True, 'model': obl.failed[0][1] or ctx.model(), 'free': True})
 
     def canary(ctx):
         return run_chef(mods, ref, CONFIGS[1], True, ctx, canary=True)
